@@ -201,6 +201,35 @@ Theorem C02_scale_is_floor : forall v num den, 0 < den ->
 Proof. exact scale_floor. Qed.
 Print Assumptions C02_scale_is_floor.
 
+(* --- a doubled negation keeps its parentheses (finding double_negation_wrapped, repaired) ---
+   The text of a condition never starts with "not not " (which the parser rejects), however many non-negated
+   one-member groups lie between two negations - for every condition tree whose profile names contain no
+   space and are not the word "not"; every IDENTIFIER token is such a name.  The statement holds for the
+   whole tree, hence for every operand printed inside it.  Before the repair the model printed
+   CGroup true [CGroup false [CSingle true b]] as "not not b". *)
+Theorem C02_no_doubled_not :
+  (forall s, classify s = c02_T_IDENTIFIER -> name_ok s = true) /\
+  (forall c, names_ok c = true -> starts_with (codes "not not ") (show c) = false).
+Proof. split; [exact identifier_name_ok|exact no_doubled_not]. Qed.
+Print Assumptions C02_no_doubled_not.
+
+(* non-vacuity, the recorded witness: "not ((not b))" is regenerated as "not (not b)" and parses back to a
+   rule with the same text *)
+Example C02_no_doubled_not_example :
+  let sigs := map codes ["a"; "b"]%string in
+  match parse_files [codes "RULE r1 CATEGORY cat CUTOFF 1 NEIGHBOURHOOD 1 CONDITIONS a and not ((not b))"] 0 sigs
+                    [codes "cat"] (mkM 1 1 1 1) [] [] with
+  | inl ([r], _) =>
+    names_ok (r_cond r) = true /\
+    reconstruct r = codes "RULE r1 CATEGORY cat CUTOFF 1 NEIGHBOURHOOD 1 CONDITIONS a and not (not b)" /\
+    match parse_files [reconstruct r] 0 sigs [codes "cat"] (mkM 1 1 1 1) [] [] with
+    | inl ([r2], _) => reconstruct r2 = reconstruct r
+    | _ => False
+    end
+  | _ => False
+  end.
+Proof. vm_compute. repeat split; reflexivity. Qed.
+
 (* --- round trip, refuted in full generality (finding fractional_kb, known) ---
    the text regenerated from a parsed rule does not always parse back to the same distances:
    5 kb x 1.5 = 7500 is written as "CUTOFF 7". *)
